@@ -80,6 +80,9 @@ def judge_sources(s, doc, enc, kind, tmpdir, i=0):
     }
     if enc == 'utf8':
         ways['str'] = lambda: MosFile.from_string(doc)
+        if not doc.lstrip().startswith('<?xml') and '<!DOCTYPE' not in doc:
+            decl = '<?xml version="1.0" encoding="ISO-8859-1"?>\n' + doc
+            ways['str-declared-latin1'] = lambda: MosFile.from_string(decl)
     res = {}
     EV.STATE['quiet'] = EV.STATE.get('quiet', 0) + 1
     try:
@@ -119,7 +122,14 @@ def readers(s, i, tmpdir):
 
 def judge_readers(s, docs, tmpdir, rng):
     texts = {}
-    for how in ('strings', 'files', 's3'):
+    if rng.random() < 0.3:
+        # strings that declare an encoding they are not in (a str has no encoding): readers must restore the same text
+        docs = [('<?xml version="1.0" encoding="ISO-8859-1"?>\n' + d) if not d.lstrip().startswith('<?xml') and
+                '<!DOCTYPE' not in d else d for d in docs]
+        hows = ('strings',)
+    else:
+        hows = ('strings', 'files', 's3')
+    for how in hows:
         shuffled = list(docs)
         rng.shuffle(shuffled)
         mc, cerr = K.make_collection(s, shuffled, how, True, tmpdir)
@@ -168,8 +178,8 @@ def listings(s, i):
     prefixes = ['', 'a/', 'a/b', 'zz', 'a/b/']
     keys = []
     for k in range(n):
-        stem = rng.choice(['a/', 'a/b/', 'a/bb', 'c/', '']) + 'f%d' % k
-        ending = rng.choice([suffix, suffix, '.txt', suffix + '.bak', '', suffix.upper(), suffix + suffix])
+        stem = rng.choice(['a/', 'a/b/', 'a/bb', 'c/', '']) + rng.choice(['f%d', 'f.%d.v2', '22.31.%d-x', 'f+%d', 'f%%2F%d', 'f %d']) % k
+        ending = rng.choice([suffix, suffix, '.txt', suffix + '.bak', '', suffix.upper(), suffix + suffix, '.mos' + suffix])
         if rng.random() < 0.1:
             stem = stem + suffix + 'mid'
         keys.append(stem + ending)
